@@ -4291,6 +4291,13 @@ class SQLCompiler(Compiled):
 
         nesting = cte.nesting or cte_opts.nesting
 
+        if not nesting or len(self.stack) <= 1:
+            # the body is rendered in the statement's WITH clause and not
+            # inside the VALUES of an enclosing INSERT that refers to
+            # it; its binds are not per-row "insertmanyvalues" binds
+            kwargs.pop("accumulate_bind_names", None)
+            kwargs.pop("visited_bindparam", None)
+
         # check for CTE already encountered
         if _reference_cte in self.level_name_by_cte:
             cte_level, _, existing_cte_opts = self.level_name_by_cte[
